@@ -1,7 +1,7 @@
 (* Props/C12.v — property C12: script integers and data pushes encode canonically and losslessly.
    Only statements; every proof is `exact <lemma>`. *)
-From PV Require Import Base.Bytes Base.Outcome Gen.GenOpcodes Model.ScriptNum Model.Push
-  Proofs.ScriptNumP Proofs.PushP.
+From PV Require Import Base.Bytes Base.Outcome Gen.GenOpcodes Model.ScriptNum Model.Push Model.ScriptText
+  Proofs.ScriptNumP Proofs.PushP Proofs.ScriptTextP.
 Local Open Scope N_scope.
 
 (* every integer encodes (the encoder loop never runs out of fuel) and decodes back to itself,
@@ -38,6 +38,19 @@ Theorem C12_truncated_reported : forall (d s : bytes) (k : nat) (m : bool),
   exists o pc, btc_get_opcode (firstn k s) 0 m = Ret (o, None, pc, false).
 Proof. exact push_truncated. Qed.
 Print Assumptions C12_truncated_reported.
+
+(* compiling the disassembly of any script made of known opcodes (good_op: every opcode value that is not a
+   sized/variable push and whose name maps back to it — a decidable predicate on the GENERATED opcode table) and
+   minimal pushes reproduces the script byte for byte.  Token level: names and [hex] tokens; the string layer
+   (split/join/upper/hexlify) is Python's and is tied by the direct checks only. *)
+Theorem C12_compile_disassemble : forall items : list item, Forall item_ok items ->
+  exists toks, disassemble (flat items) = Ret toks /\ compile toks = Ret (flat items).
+Proof. exact text_roundtrip. Qed.
+Print Assumptions C12_compile_disassemble.
+
+(* non-vacuity of good_op: how many of the 256 opcode values qualify on the current table *)
+Example C12_good_op_count : good_op_count = 109%nat.
+Proof. vm_compute. reflexivity. Qed.
 
 (* non-vacuity: a 256-byte push (the boundary that used to fail) meets the hypotheses *)
 Example C12_boundary_256 :
